@@ -451,6 +451,7 @@ class Machine(object):
       ev["store_calls"] = len(h.store.calls) - store_calls0
     h.n_fits += 1
     h.dirty = False
+    h.last_fit_args = args if via == "indices" or True else None
     ok = ev["outcome"] == "ok"
     if ok or ev["outcome"] == "swallowed":
       h.n_ok_fits += 1
@@ -571,7 +572,23 @@ class Machine(object):
     if h is None or h.est is None or not hasattr(h.est, "calibrate_threshold"):
       ev["outcome"] = "skip"
       return
-    D, pairs, y, via = self.calib_data(h, op)
+    op_eff = dict(op)
+    bufs = getattr(h, "last_fit_args", None)
+    if op.get("in_fit_buffers") and bufs and len(bufs) >= 2:
+      op_eff["m"] = len(bufs[0])       # as many validation pairs as there were training pairs
+    D, pairs, y, via = self.calib_data(h, op_eff)
+    if op.get("in_fit_buffers") and bufs and len(bufs) >= 2:
+      # the caller refills the very arrays it passed to fit with the validation
+      # pairs and their labels: same objects, other content
+      b0, b1 = bufs[0], bufs[1]
+      p_, y_ = np.asarray(pairs), np.asarray(y)
+      if isinstance(b0, np.ndarray) and isinstance(b1, np.ndarray) and b0.shape == p_.shape and \
+          b0.dtype == p_.dtype and b1.shape == y_.shape and b1.dtype == y_.dtype:
+        np.copyto(b0, p_)
+        np.copyto(b1, y_)
+        pairs, y = b0, b1
+        self.cov["calibration_in_fit_buffers"] += 1
+    live["op_eff"] = op_eff
     cp = dict(op.get("cp", {}))
     live.update(handle=h, pairs=pairs, y=y, cp=cp, D=D, via=via,
                 state_before=state_digest(h.est))
@@ -591,7 +608,7 @@ class Machine(object):
     ev["cp"] = sorted(cp.items(), key=lambda kv: kv[0])
     ev["cp"] = [[k, repr(v)] for k, v in ev["cp"]]
     if ev["outcome"] == "ok":
-      h.thr_ops.append(("calibrate", dict(op)))
+      h.thr_ops.append(("calibrate", dict(op_eff)))
       ev["thr"] = float(h.est.threshold_).hex()
 
   # -- queries
@@ -1075,6 +1092,18 @@ def same_outputs(a, b, cov=None):
   if cov is not None:
     cov["outputs_equal_up_to_blas_alignment"] += 1
   return True
+
+
+def layout_signature(est):
+  """Memory layout of the fitted arrays (not their content): pickling turns any
+  array into a C- or F-contiguous one, so an estimator that stores a strided view
+  comes back with another layout - and BLAS then rounds its outputs differently."""
+  out = {}
+  for k_, v_ in vars(est).items():
+    if k_.endswith("_") and isinstance(v_, np.ndarray) and v_.ndim >= 1:
+      out[k_] = (bool(v_.flags.c_contiguous), bool(v_.flags.f_contiguous),
+                 tuple(int(np.sign(s_)) for s_ in v_.strides))
+  return out
 
 
 def fresh_restart(est, probes):
